@@ -273,10 +273,17 @@ def repo_src(rel):
     return os.path.join(REPO, rel)
 
 
+# second build configuration of every driver: the LIBRARY sources with -DNDEBUG (assert() compiled out),
+# the driver's own code unchanged.  Switched on by ./check for its NDEBUG round.
+NDEBUG_BUILD = os.environ.get("VERIF_NDEBUG") == "1"
+
+
 def build_c(name, driver, repo_sources, extra_sources=(), cflags=(), ldflags=(), wraps=(), asan=False,
             cpuconfig="cpusupport-config.h", per_file_flags=None, cc="gcc", timeout=300):
     """Compile build/c/<name> from harness/<driver> + sources in REPO. Returns (path, errtext|None).
     cpuconfig is a path relative to REPO or an absolute path to a header."""
+    if NDEBUG_BUILD:
+        name += "_ndebug"
     outdir = ensure_dir(os.path.join(BUILD, "c", name))
     exe = os.path.join(outdir, name)
     inc = []
@@ -295,6 +302,8 @@ def build_c(name, driver, repo_sources, extra_sources=(), cflags=(), ldflags=(),
             o = os.path.join(outdir, hashlib.md5(s.encode()).hexdigest()[:8] + "-" + os.path.basename(s)[:-2] + ".o")
             objs.append(o)
             ff = list(flags)
+            if NDEBUG_BUILD and s.startswith(REPO + os.sep):
+                ff.append("-DNDEBUG")      # the library as a release build of an embedding program compiles it
             if per_file_flags:
                 for pat, fl in per_file_flags.items():
                     if s.endswith(pat):
